@@ -24,7 +24,7 @@ theorem poller_loop_tie' (ks : List Thread) (fs : List (String × Value)) (phc :
     (hsend : ∀ p, e = .sendFailed p → p.sends = true)
     (nowNs : Int) (inp : Nat → Value) (env : List (String × Value)) (log : List Value) (pos : Nat)
     (hin : inputsAt inp pos (loopInputs k it e)) (N : Nat) (hN : k + 100 ≤ N) :
-    pollerLoopCall N (Code.ctxWith nowNs DictThreads.ext [] inp) .unit
+    pollerLoopCall N (pollerCtx nowNs inp) .unit
       [contextValue .poller ks, .struct "ClockErrorBoundPoller" fs, phcValue phc, .duration d] ⟨env, log, pos⟩
     = loopResult e env (log ++ loopEvents d k it e) (pos + (inputsBefore it k + e.inputs.length)) := by
   obtain ⟨F, rfl⟩ : ∃ F, N = F + k + 100 := ⟨N - k - 100, by omega⟩
@@ -51,7 +51,7 @@ theorem poller_run_tie (ks : List Thread) (phc : Option (Nat × Value)) (k F : N
     (e : PEnd) (hmissE : e.poll.phcMiss phc) (hsend : ∀ p, e = .sendFailed p → p.sends = true)
     (nowNs : Int) (inp : Nat → Value) (i0 i1 : Value)
     (hin : inputsAt inp 0 (pollerStartInputs i0 i1 ++ loopInputs k it e)) :
-    runFuel (F + k + 200) (Code.ctxWith nowNs DictThreads.ext [] inp) "chrony_poller::run" .unit
+    runFuel (F + k + 200) (pollerCtx nowNs inp) "chrony_poller::run" .unit
       [contextValue .poller ks, phcValue phc]
     = pollerOutcome e (pollerStartEvents i0 i1 ++ loopEvents 1000000000 k it e) := by
   rw [inputsAt_append] at hin
@@ -59,7 +59,7 @@ theorem poller_run_tie (ks : List Thread) (phc : Option (Nat × Value)) (k F : N
   have h0 : inp 0 = .ext "Instant" [i0] := hs.1
   have h1 : inp 1 = .enumv "Some" [.ext "Instant" [i1]] := hs.2.1
   have hl' : inputsAt inp 2 (loopInputs k it e) := hl
-  simp [rs_eval, rs_code, ascribe_contextValue, h0, h1, ↓pollerLoopCall_wrap]
+  simp [rs_eval, rs_code, abstractedP, ascribe_contextValue, h0, h1, ↓pollerLoopCall_wrap]
   rw [poller_loop_tie' ks _ phc 1000000000 k it hcont hmiss e hmissE hsend nowNs inp _ _ 2 hl' _ (by omega)]
   cases e <;> simp [rs_eval, loopResult, pollerOutcome, pollerStartEvents]
 
